@@ -33,6 +33,16 @@ def limbs(f):
     return LIMBS.get(f, 4)
 
 
+def mul_params(f):
+    n = limbs(f)
+    tv = "+".join("t%d" % i for i in range(n))
+    hdr = "//verif:harness capture=Mul:%s+m trigger=v cut=%s pin=^x" % (tv, tv)
+    sym = "\n".join("%s\nfunc H_Mul_Round_%d() { vMulRounds(%d) }" % (hdr, r, r) for r in range(n))
+    sym += "\n%s\nfunc H_Mul_Final() { vMulRounds(%d) }" % (hdr, n)
+    nat = "\n".join("func H_Mul_Round_%d() { vNativeMul() }" % r for r in range(n)) + "\nfunc H_Mul_Final() { vNativeMul() }"
+    return dict(WordBits=64, TVars=tv, RoundHarnesses=sym, RoundHarnessesNative=nat)
+
+
 NOCARRY = [f for f in FIELDS64 if "secp256k1" not in f]
 MUL_SLOW = ["ecc/bls12-381/fp", "ecc/bw6-633/fp", "ecc/bw6-761/fp"]  # 6/10/12 limbs: round lemmas need the long timeout
 
@@ -40,8 +50,8 @@ PROPS["C01"] = dict(
     jobs=[Job(f, ["C01/common.go.tmpl", "C01/linear.go.tmpl"], params=dict(WordBits=wordbits(f))) for f in ALL_FIELDS] +
          [Job(f, ["C01/exp.go.tmpl"], label=f + "#exp", params=dict(ExpBits=8, ExpUnroll=18, PkgSuffix=f.split("/", 1)[1] if f.startswith("ecc/") else f.split("/")[-1])) for f in ALL_FIELDS] +
          [Job(f, ["C01/common.go.tmpl", "C01/mul_nocarry.go.tmpl"], label=f + "#mul",
-              tier="thorough" if f in MUL_SLOW else "quick", timeout_ms=300000 if f in MUL_SLOW else 60000,
-              params=dict(WordBits=64, TVars="+".join("t%d" % i for i in range(limbs(f))))) for f in NOCARRY],
+              tier="thorough" if f in MUL_SLOW else "quick", timeout_ms=400000 if f in MUL_SLOW else 150000, jobs=8 if f in MUL_SLOW else 4,
+              params=mul_params(f)) for f in NOCARRY],
     level_text="Bounded proof per field package: linear operations and predicates at full width against math/big (all 23 "
                "fields); Montgomery multiplication of the no-carry fields by one lemma per round (cut at each multiplier word, "
                "the code's quotient word as witness) plus the final subtraction and an arithmetic closing step; Exp by any "
